@@ -83,6 +83,11 @@ def cases(rnd):
     C.append(("valid-tokens", lambda k, i: ok_response(k, upgrade=b"h2c, WebSocket", connection=b"keep-alive , upgrade"), {}))
     C.append(("accept-swapcase", lambda k, i: ok_response(k, acc=swap(accept(k))), {}))
     C.append(("accept-other-key", lambda k, i: ok_response(k, acc=accept(b"AAAAAAAAAAAAAAAAAAAAAA==")), {}))
+    # non-ASCII / non-Latin-1 text in header values of an otherwise acceptable 101: must be a plain rejection, never an internal error
+    C.append(("accept-non-ascii", lambda k, i: ok_response(k, acc=accept(k)[:-2] + "\u00e9".encode("utf-8")), {}))
+    C.append(("accept-non-latin1", lambda k, i: ok_response(k, acc="\u4e2d".encode("utf-8") + accept(k)), {}))
+    C.append(("upgrade-non-ascii", lambda k, i: ok_response(k, upgrade="websock\u00e9t".encode("utf-8")), {}))
+    C.append(("subprotocol-non-ascii", lambda k, i: ok_response(k, extra=b"Sec-WebSocket-Protocol: ch\xc3\xa4t\r\n"), {"subprotocols": ["chat"]}))
     C.append(("accept-missing", lambda k, i: b"HTTP/1.1 101 X\r\nUpgrade: websocket\r\nConnection: Upgrade\r\n\r\n", {}))
     C.append(("no-upgrade", lambda k, i: ok_response(k, upgrade=b"web socket"), {}))
     C.append(("connection-close", lambda k, i: ok_response(k, connection=b"close"), {}))
